@@ -1166,10 +1166,10 @@ def portVal : Option Str → Option Nat
   | some d => if d.isEmpty then none else some (decNat d)
   | none => none
 
-theorem portPart_colon (q : Str) (p : Option Str) (hq : q.getLast? ≠ some 10)
+theorem portPart_colon (q : Str) (p : Option Str)
     (h : portPart (58 :: q) = some p) :
     portVal p = refPortValue (some q) ∧ q.all isDigitC = true := by
-  simp only [portPart, stripNl_of_not_nl q hq] at h
+  simp only [portPart] at h
   cases hc : portCapture q with
   | none => simp [hc] at h
   | some cap =>
@@ -1181,11 +1181,10 @@ theorem portPart_colon (q : Str) (p : Option Str) (hq : q.getLast? ≠ some 10)
 theorem tokenize_bracket (t : Str) : tokenize (91 :: t) = .chr 91 :: tokenize t := by
   simp [tokenize, tokAux]
 
-theorem hostPortBracket_ref (hp h : Str) (p : Option Str) (hm : hostPortBracket hp = some (h, p))
-    (hnl : ∀ q, (refHostPort hp).2.1 = some q → q.getLast? ≠ some 10)
-    (hwf : (refHostPort hp).2.2 = true) :
+theorem hostPortBracket_ref (hp h : Str) (p : Option Str) (hm : hostPortBracket hp = some (h, p)) :
     h = (refHostPort hp).1 ∧ portVal p = refPortValue (refHostPort hp).2.1 ∧
-    (∀ q, (refHostPort hp).2.1 = some q → q.all isDigitC = true) := by
+    (∀ q, (refHostPort hp).2.1 = some q → q.all isDigitC = true) ∧
+    (refHostPort hp).2.2 = true := by
   match hp, hm with
   | 91 :: t, hm =>
     cases hd : t.dropWhile (· != 93) with
@@ -1203,26 +1202,27 @@ theorem hostPortBracket_ref (hp h : Str) (p : Option Str) (hm : hostPortBracket 
           | cons x q =>
             by_cases hx : x = 58
             · subst hx
-              simp only [refHostPort, hd] at hnl ⊢
+              simp only [refHostPort, hd]
               cases hpp : portPart (58 :: q) with
               | none => simp [hpp] at hm
               | some p' =>
                 simp only [hpp, Option.map_some, Option.some.injEq, Prod.mk.injEq] at hm
                 obtain ⟨rfl, rfl⟩ := hm
-                have := portPart_colon q p' (hnl q rfl) hpp
-                refine ⟨rfl, this.1, ?_⟩
+                have := portPart_colon q p' hpp
+                refine ⟨rfl, this.1, ?_, by first | rfl | trivial⟩
                 intro q' hq'
                 simp only [Option.some.injEq] at hq'
                 subst hq'
                 exact this.2
-            · exfalso
-              have : (refHostPort (91 :: t)).2.2 = false := by
-                simp only [refHostPort, hd]
+            · -- junk after the `]`: with `\Z` the port part does not match
+              exfalso
+              have : portPart (x :: q) = none := by
+                unfold portPart
                 split
                 · rename_i heq; exact absurd heq (by simp)
                 · rename_i heq; injection heq with h1 _; exact absurd h1 hx
                 · rfl
-              rw [this] at hwf; exact absurd hwf (by decide)
+              simp [this] at hm
         · simp at hm
       · simp only [hostPortBracket, hd] at hm
         split at hm
@@ -1255,19 +1255,14 @@ theorem portPart_head (c : Nat) (r : Str) (p : Option Str) (hc : regNameChar c =
     · simp at *
     · rename_i heq
       injection heq with h1 _
-      subst h1
-      simp [regNameChar] at hc
-    · rename_i heq
-      injection heq with h1 _
       exact h58 h1
     · simp at h
 
 /-- `_HOST_PORT_RE` and the reference reading cut `host [":" port]` at the same places -/
-theorem hostPortRe_ref (hp h : Str) (p : Option Str) (hm : hostPortRe hp = some (h, p))
-    (hnl : ∀ q, (refHostPort hp).2.1 = some q → q.getLast? ≠ some 10)
-    (hwf : (refHostPort hp).2.2 = true) :
+theorem hostPortRe_ref (hp h : Str) (p : Option Str) (hm : hostPortRe hp = some (h, p)) :
     h = (refHostPort hp).1 ∧ portVal p = refPortValue (refHostPort hp).2.1 ∧
-    (∀ q, (refHostPort hp).2.1 = some q → q.all isDigitC = true) := by
+    (∀ q, (refHostPort hp).2.1 = some q → q.all isDigitC = true) ∧
+    (refHostPort hp).2.2 = true := by
   by_cases hb : ∃ t, hp = 91 :: t
   · obtain ⟨t, rfl⟩ := hb
     have e : List.flatMap Tok.text (Tok.chr 91 :: tokenize t) = 91 :: t := by
@@ -1278,9 +1273,9 @@ theorem hostPortRe_ref (hp h : Str) (p : Option Str) (hm : hostPortRe hp = some 
     unfold hostPortRe at hm
     simp only [tokenize_bracket, List.dropWhile, regNameTok, regNameChar, beq_self_eq_true,
       Bool.true_or, Bool.not_true, e, hp0] at hm
-    exact hostPortBracket_ref _ h p hm hnl hwf
+    exact hostPortBracket_ref _ h p hm
   · have hnb : ∀ t, hp ≠ 91 :: t := fun t e => hb ⟨t, e⟩
-    rw [refHostPort_nb hp hnb] at hnl hwf ⊢
+    rw [refHostPort_nb hp hnb]
     unfold hostPortRe at hm
     simp only at hm
     have hok : ∀ x ∈ tokenize hp, x.ok = true := tokenize_ok _
@@ -1315,10 +1310,10 @@ theorem hostPortRe_ref (hp h : Str) (p : Option Str) (hm : hostPortRe hp = some 
         have hc58 := portPart_head c r p' hc hpp
         subst hc58
         have hs := takeWhile_append_stop R 58 r hR58 (by decide)
-        rw [← hjoin] at hnl hwf ⊢
-        simp only [hs.1, hs.2] at hnl hwf ⊢
-        have := portPart_colon r p' (hnl r rfl) hpp
-        refine ⟨by first | rfl | trivial, this.1, ?_⟩
+        rw [← hjoin]
+        simp only [hs.1, hs.2]
+        have := portPart_colon r p' hpp
+        refine ⟨by first | rfl | trivial, this.1, ?_, by first | rfl | trivial⟩
         intro q' hq'
         simp only [Option.some.injEq] at hq'
         subst hq'
@@ -1464,16 +1459,21 @@ theorem parseUrlWith_ok' {idna : Str → Option Str} {s : Str} {u : Url} (h : pa
     · rename_i sc au ho po pa q f hf
       exact ⟨sc, au, ho, po, pa, q, f, funnel_ok hf, by simpa using h.symm⟩
 
+theorem ite_none_some {c : Bool} {h : Str} {h0 : Option Str}
+    (e : (if c = true then none else some h) = h0) :
+    (c = true ∧ h0 = none) ∨ (c = false ∧ h0 = some h) := by
+  cases c <;> simp_all
+
 /-- `parse_url` and the reference reading agree on userinfo, host and port -/
 theorem agrees_with_rfc (idna : Str → Option Str) (s : Str) (u : Url) (r : RefAuth)
     (h : parseUrlWith idna s = .ok u) (hr : refAuthority s = some r)
-    (hdot : ∀ sch, refScheme s = some sch → 46 ∉ sch)
-    (hwf : r.wellFormed = true) (hnl : ∀ p, r.port = some p → p.getLast? ≠ some 10) :
+    (hdot : ∀ sch, refScheme s = some sch → 46 ∉ sch) :
     normalizeHost idna (some r.host) u.scheme = .ok (some (u.host.getD [])) ∧
     (u.host = none → r.host = []) ∧
     u.port = refPortValue r.port ∧
     (∀ p, r.port = some p → p.all isDigitC = true) ∧
-    u.auth = refAuthValue (Gen.normalizableSchemes.contains u.scheme) r.userinfo := by
+    u.auth = refAuthValue (Gen.normalizableSchemes.contains u.scheme) r.userinfo ∧
+    r.wellFormed = true := by
   obtain ⟨hsre, t', hauth, rfl⟩ := front_end s r hr hdot
   rcases parseUrlWith_ok' h with rfl | ⟨sc, au, ho, po, pa, q, f, hc, rfl⟩
   · simp [schemeRe] at hsre
@@ -1485,7 +1485,7 @@ theorem agrees_with_rfc (idna : Str → Option Str) (s : Str) (u : Url) (r : Ref
     have hnu : normalizeUriOf (splitScheme s).1 = Gen.normalizableSchemes.contains (sc.map lower) := by
       rw [hsc]; exact normalizeUriOf_eq _ (by decide)
     simp only [mkUrl, hscl]
-    generalize t'.takeWhile authChar = a at hpa hwf hnl ⊢
+    generalize t'.takeWhile authChar = a at hpa ⊢
     unfold parseAuthority at hpa
     simp only at hpa
     split at hpa
@@ -1505,13 +1505,11 @@ theorem agrees_with_rfc (idna : Str → Option Str) (s : Str) (u : Url) (r : Ref
       · simp at hpa
       · rename_i hne hh pp hhp
         simp only [Except.ok.injEq, Prod.mk.injEq] at hpa
-        obtain ⟨rfl, rfl, rfl⟩ := hpa
-        simp only [refAuthOfText] at hwf hnl ⊢
-        obtain ⟨e1, e2, e3⟩ := hostPortRe_ref _ hh pp hhp hnl hwf
-        obtain ⟨x, rfl⟩ := normalizeHost_some hhost
-        refine ⟨?_, by simp, ?_, e3, ?_⟩
-        · rw [← e1]; simpa using hhost
-        · rw [← e2]
+        obtain ⟨rfl, hh0, rfl⟩ := hpa
+        simp only [refAuthOfText]
+        obtain ⟨e1, e2, e3, e4⟩ := hostPortRe_ref _ hh pp hhp
+        have hpo : po = refPortValue (refHostPort (rpartitionAt a).2).2.1 := by
+          rw [← e2]
           unfold portToInt at hport
           cases pp with
           | none => simp at hport; simp [portVal, hport]
@@ -1523,12 +1521,178 @@ theorem agrees_with_rfc (idna : Str → Option Str) (s : Str) (u : Url) (r : Ref
               · simp only [Except.ok.injEq] at hport
                 simp [portVal, hd, hport]
               · simp at hport
-        · rw [hnu, hscl]
+        have hau : (if (rpartitionAt a).1.isEmpty = true then none
+              else some (if normalizeUriOf (splitScheme s).1 = true
+                then encodeInvalidChars Gen.userinfoChars (rpartitionAt a).1 else (rpartitionAt a).1)) =
+            refAuthValue (Gen.normalizableSchemes.contains sc) ((rpart 64 a).map (·.1)) := by
+          rw [hnu, hscl]
           unfold rpartitionAt refAuthValue
           cases rpart 64 a with
           | none => simp
           | some pr => simp
+        rcases ite_none_some hh0 with ⟨hcnd, rfl⟩ | ⟨-, rfl⟩
+        · -- the authority consists of delimiters only: host `None`, the reading has host `""`
+          have hhe : hh = [] := by
+            simp only [Bool.and_eq_true, List.isEmpty_iff] at hcnd
+            exact hcnd.2
+          simp only [normalizeHost, Except.ok.injEq] at hhost
+          subst hhost
+          refine ⟨?_, ?_, hpo, e3, hau, e4⟩
+          · rw [← e1, hhe]; simp [normalizeHost]
+          · intro _; rw [← e1, hhe]
+        · obtain ⟨x, rfl⟩ := normalizeHost_some hhost
+          refine ⟨?_, by simp, hpo, e3, hau, e4⟩
+          rw [← e1]; simpa using hhost
 
+
+/-! ## an empty host is only reported next to a port or userinfo -/
+
+theorem splitOn1_eq_nilnil {c : Nat} {h : Str} (e : splitOn1 c h = [[]]) : h = [] := by
+  cases h with
+  | nil => rfl
+  | cons x t =>
+    exfalso
+    simp only [splitOn1] at e
+    split at e
+    · simp only [List.cons.injEq, true_and] at e
+      exact splitOn1_ne_nil c t e
+    · split at e <;> simp at e
+
+theorem joinWith_eq_nil {sep : Str} (hs : sep ≠ []) {l : List Str} (e : joinWith sep l = []) :
+    l = [] ∨ l = [[]] := by
+  match l, e with
+  | [], _ => exact Or.inl rfl
+  | [x], e => simp only [joinWith] at e; subst e; exact Or.inr rfl
+  | x :: y :: t, e =>
+    exfalso
+    simp only [joinWith, List.append_eq_nil_iff] at e
+    exact hs e.1.2
+
+theorem mapM_length {α β : Type} (f : α → Except Exc β) (l : List α) (ls : List β)
+    (h : l.mapM f = .ok ls) : ls.length = l.length := by
+  induction l generalizing ls with
+  | nil => simp [pure, Except.pure] at h; subst h; rfl
+  | cons x r ih =>
+    rw [List.mapM_cons] at h
+    obtain ⟨b, _, h2⟩ := bind_ok h
+    obtain ⟨bs, hbs, h3⟩ := bind_ok h2
+    simp only [pure, Except.pure, Except.ok.injEq] at h3
+    subst h3
+    simp [ih bs hbs]
+
+theorem lower_eq_nil {l : Str} (h : lower l = []) : l = [] := by
+  have := lower_length l
+  rw [h] at this
+  exact List.eq_nil_of_length_eq_zero this.symm
+
+theorem idnaEncode_eq_nil {idna : Str → Option Str} (hc : ∀ l r, idna l = some r → r ≠ [])
+    {l : Str} (h : idnaEncode idna l = .ok []) : l = [] := by
+  unfold idnaEncode at h
+  split at h
+  · simp only [Except.ok.injEq] at h; exact lower_eq_nil h
+  · split at h
+    · rename_i r hr
+      simp only [Except.ok.injEq] at h
+      exact absurd h (hc _ _ hr)
+    · simp at h
+
+/-- `_normalize_host` never turns a non-empty host into the empty one (given that `idna.encode`
+never answers with an empty label) -/
+theorem normalizeHost_nonempty {idna : Str → Option Str} (hc : ∀ l r, idna l = some r → r ≠ [])
+    {h : Str} (hne : h ≠ []) {sc : Option Str} {x : Str}
+    (he : normalizeHost idna (some h) sc = .ok (some x)) : x ≠ [] := by
+  have hie : h.isEmpty = false := by cases h <;> simp_all
+  unfold normalizeHost at he
+  simp only [hie, Bool.false_eq_true, if_false] at he
+  split at he
+  · split at he
+    · split at he
+      · simp only [Except.ok.injEq, Option.some.injEq] at he
+        subst he
+        exact fun e => hne (lower_eq_nil e)
+      · simp only [Except.ok.injEq, Option.some.injEq] at he
+        subst he
+        simp
+    · split at he
+      · simp only [Except.ok.injEq, Option.some.injEq] at he
+        subst he; exact hne
+      · obtain ⟨ls, hls, h2⟩ := bind_ok he
+        simp only [Except.ok.injEq, Option.some.injEq] at h2
+        subst h2
+        intro e
+        have hlen := mapM_length _ _ _ hls
+        rcases joinWith_eq_nil (by decide) e with rfl | rfl
+        · exact splitOn1_ne_nil 46 h (List.eq_nil_of_length_eq_zero hlen.symm)
+        · -- one label, encoded to `""`: the label, hence the host, is empty
+          cases hsp : splitOn1 46 h with
+          | nil => exact splitOn1_ne_nil 46 h hsp
+          | cons p ps =>
+            rw [hsp] at hlen hls
+            have hps : ps = [] := by
+              simp only [List.length_cons, List.length_nil] at hlen
+              exact List.eq_nil_of_length_eq_zero (by omega)
+            subst hps
+            obtain ⟨z, hz, hf⟩ := mapM_ok _ _ _ hls [] (List.mem_cons_self ..)
+            simp only [List.mem_cons, List.not_mem_nil, or_false] at hz
+            subst hz
+            have := idnaEncode_eq_nil hc hf
+            subst this
+            exact hne (splitOn1_eq_nilnil hsp)
+  · simp only [Except.ok.injEq, Option.some.injEq] at he
+    subst he; exact hne
+
+/-- **the general form of the repaired `reparse-mismatch:empty-host`**: when `parse_url` reports the
+host `""`, it also reports a port or a userinfo (so the string form `…//…@` / `…//:port` shows the
+empty host and re-parsing finds it again).  `hc`: `idna.encode` never answers with an empty label. -/
+theorem empty_host_has_port_or_userinfo (idna : Str → Option Str) (hc : ∀ l r, idna l = some r → r ≠ [])
+    (s : Str) (u : Url) (h : parseUrlWith idna s = .ok u) (hh : u.host = some []) :
+    u.auth.isSome = true ∨ u.port.isSome = true := by
+  rcases parseUrlWith_ok' h with rfl | ⟨sc, au, ho, po, pa, q, f, hc', rfl⟩
+  · simp only [parseUrlWith, List.isEmpty_nil, if_true, Except.ok.injEq] at h
+    subst h
+    simp [Url.empty] at hh
+  · obtain ⟨h0, port, -, hpa, hport, hhost⟩ := parseCore_ok' hc'
+    simp only [mkUrl] at hh ⊢
+    subst hh
+    unfold parseAuthority at hpa
+    simp only at hpa
+    split at hpa
+    · simp only [Except.ok.injEq, Prod.mk.injEq] at hpa
+      obtain ⟨-, rfl, -⟩ := hpa
+      simp [normalizeHost] at hhost
+    · split at hpa
+      · simp only [Except.ok.injEq, Prod.mk.injEq] at hpa
+        obtain ⟨-, rfl, -⟩ := hpa
+        simp [normalizeHost] at hhost
+      · split at hpa
+        · simp at hpa
+        · rename_i hx pp _
+          simp only [Except.ok.injEq, Prod.mk.injEq] at hpa
+          obtain ⟨rfl, hh0, rfl⟩ := hpa
+          rcases ite_none_some hh0 with ⟨-, rfl⟩ | ⟨hcnd, rfl⟩
+          · simp [normalizeHost] at hhost
+          · by_cases hxe : hx = []
+            · subst hxe
+              simp only [List.isEmpty_nil, Bool.and_true, Bool.and_eq_false_iff] at hcnd
+              rcases hcnd with ha | hp
+              · left
+                cases hau : (if (rpartitionAt _).1.isEmpty = true then (none : Option Str) else _) with
+                | none => rw [hau] at ha; simp at ha
+                | some _ => rfl
+              · right
+                revert hp hport
+                cases pp with
+                | none => simp
+                | some d =>
+                  by_cases hd : d.isEmpty = true
+                  · simp [hd]
+                  · simp only [hd, Bool.false_eq_true, if_false, portToInt]
+                    intro hport _
+                    split at hport
+                    · simp only [Except.ok.injEq] at hport
+                      rw [← hport]; rfl
+                    · simp at hport
+            · exact absurd rfl (normalizeHost_nonempty hc hxe hhost)
 
 /-! ## the encoder acts segment-wise on a path -/
 
